@@ -101,6 +101,10 @@ class DataView:
         raise FrameViolation(f'deletion of self.data[{k!r}] inside a quantity method')
 
 
+class StubLimit(Undecided):
+    """the stub was asked for something it does not model: the obligation is undecided, not refuted"""
+
+
 class Stub:
     """contract stub for `self`."""
 
@@ -124,6 +128,20 @@ class Stub:
 
     def myprint(self, msg):
         pass
+
+    def __getattr__(self, name):
+        """a method of the real class that has no contract here (e.g. a private helper introduced by a refactoring):
+        its REAL body runs with this stub as `self` -- the caller is then checked against the callee's body instead of its
+        contract (less modular, still sound).  Anything else unknown is a limit of the stub, never a verdict on the code."""
+        if name.startswith('__'):
+            raise AttributeError(name)
+        env = self.__dict__.get('env')
+        f = env.Core.__dict__.get(name) if env is not None else None
+        import types as _types
+        if isinstance(f, _types.FunctionType):
+            self.__dict__.setdefault('inlined', []).append(name)
+            return _types.MethodType(f, self)
+        raise StubLimit(f"the contract stub has no attribute '{name}'")
 
     def _serve(self, k):
         if k not in self._served:
